@@ -527,6 +527,8 @@ func VerifC12Nested() {
 	vassert(c12Eq(v, r), "nested value in interface-typed positions: deserialised value is deeply equal to the serialised one, with the identical dynamic type")
 }
 
+var c12ClashDone = false
+
 type c12V1 struct {
 	ID string
 	N  int
@@ -540,9 +542,12 @@ type c12V2 struct {
 // init code does): a value of the refused type either fails loudly or comes back as itself, never as the other type
 func VerifC12NameClash() {
 	c12Reg()
-	e1 := GenericRegister[c12V1]("c12_order")
-	e2 := GenericRegister[c12V2]("c12_order")
-	vassert(e1 == nil && e2 != nil, "the second registration under a taken name is refused")
+	if !c12ClashDone { // the registry is process-wide: register once per process
+		e1 := GenericRegister[c12V1]("c12_order")
+		e2 := GenericRegister[c12V2]("c12_order")
+		vassert(e1 == nil && e2 != nil, "the second registration under a taken name is refused")
+		c12ClashDone = true
+	}
 	n := vsymInt("n")
 	var v any = c12V2{ID: "o", N: n}
 	if vchoose("nested", 2) == 1 {
@@ -557,4 +562,68 @@ func VerifC12NameClash() {
 	}
 	got, ok := r.(c12V2)
 	vassert(ok && got.N == n && got.ID == "o", "a value that is written comes back with the identical dynamic type")
+}
+
+type c12Names []string
+type c12Tags map[string]int
+type c12inner struct{ Y int }
+type c12Emb struct {
+	c12inner
+	X int
+}
+type c12Arr struct{ A [2]int }
+
+// shapes at the edge of the supported universe: pointers to slices and maps, named slice / map types, arrays, an
+// embedded unexported struct: each either comes back deeply equal with the identical dynamic type, or Marshal /
+// Unmarshal fails; a different value is never returned silently
+func VerifC12EdgeShapes() {
+	c12Reg()
+	_ = GenericRegister[c12Names]("c12_names")
+	_ = GenericRegister[c12Tags]("c12_tags")
+	_ = GenericRegister[c12Emb]("c12_emb")
+	_ = GenericRegister[c12Arr]("c12_arr")
+	x := vsymInt("x")
+	var v any
+	var same func(r any) bool
+	switch vchoose("shape", 8) {
+	case 0:
+		s := []int{x, 2}
+		v = &s
+		same = func(r any) bool { p, ok := r.(*[]int); return ok && p != nil && len(*p) == 2 && (*p)[0] == x }
+	case 1:
+		m := map[string]int{"k": x}
+		v = &m
+		same = func(r any) bool { p, ok := r.(*map[string]int); return ok && p != nil && (*p)["k"] == x }
+	case 2:
+		v = c12Names{"a", "b"}
+		same = func(r any) bool { p, ok := r.(c12Names); return ok && len(p) == 2 && p[0] == "a" }
+	case 3:
+		v = c12Tags{"k": x}
+		same = func(r any) bool { p, ok := r.(c12Tags); return ok && p["k"] == x }
+	case 4:
+		v = [2]int{x, 2}
+		same = func(r any) bool { p, ok := r.([2]int); return ok && p[0] == x && p[1] == 2 }
+	case 5:
+		v = c12Arr{A: [2]int{x, 2}}
+		same = func(r any) bool { p, ok := r.(c12Arr); return ok && p.A[0] == x }
+	case 6:
+		v = c12Emb{c12inner: c12inner{Y: x}, X: 1}
+		same = func(r any) bool { p, ok := r.(c12Emb); return ok && p.Y == x && p.X == 1 }
+	case 7:
+		v = map[string]any{"names": c12Names{"a"}, "ptr": func() any { s := []int{x}; return &s }()}
+		same = func(r any) bool {
+			m, ok := r.(map[string]any)
+			if !ok {
+				return false
+			}
+			n, ok1 := m["names"].(c12Names)
+			p, ok2 := m["ptr"].(*[]int)
+			return ok1 && ok2 && len(n) == 1 && p != nil && len(*p) == 1 && (*p)[0] == x
+		}
+	}
+	r, err := c12Round(v)
+	if err != nil {
+		return // failing loudly is allowed
+	}
+	vassert(same(r), "a value that is written and read back without an error is deeply equal to the original, with the identical dynamic type")
 }
